@@ -200,6 +200,56 @@ pub fn check_t(l: &mut Local, leaps: &LeapTable, t: i64, shape: usize) -> (u64, 
     (calls, reported)
 }
 
+/// Probe zones at the top of the i64 range: the last leap record within a few seconds of `i64::MAX` (so that, with a
+/// negative cumulative correction before it, it may lie *beyond* the last UTC instant and never apply), one transition
+/// A -> B at a count T within a few seconds of the top, no rule or a fixed rule B. The forward lookup is asked at the
+/// last seconds of i64 and around the switch: this pins the UTC -> count conversion where a saturated or wrapped
+/// intermediate compares differently from the exact value. No search here: these instants have no calendar date.
+pub fn check_edge(l: &mut Local, leaps: &LeapTable, t: i64, fixed_rule: bool) -> u64 {
+    let types = vec![TypeSpec::new(0, false, Some("AAA")), TypeSpec::new(3600, true, Some("BBB"))];
+    let x = leaps.switch(t);
+    let rule = if fixed_rule && x <= i64::MAX as i128 && x >= i64::MIN as i128 { Some(crate::model::zone::RuleSpec::Fixed(types[1].clone())) } else { None };
+    let z = ZoneSpec { transitions: vec![(t, 1)], types, leaps: leaps.clone(), rule };
+    let b = match build(&z) {
+        Ok(b) => b,
+        Err(e) => {
+            l.violation("leap seconds: valid probe zone refused", z.describe(), "Ok".into(), e);
+            return 0;
+        }
+    };
+    let tz = b.tz.as_ref();
+    let zm = z.model();
+    let mut us: Vec<i64> = (0..8).map(|d| i64::MAX - d).collect();
+    for d in -3..=3i128 {
+        if let Ok(u) = i64::try_from(x + d) {
+            us.push(u);
+        }
+    }
+    us.sort();
+    us.dedup();
+    let mut calls = 0;
+    for u in us {
+        let exp = zm.forward(u);
+        let got = facade::lookup(tz, u);
+        calls += 1;
+        let what = || format!("find_local_time_type({}) with transition A->B at count {} ({}) and leap table {:?}", u, t, if z.rule.is_some() { "fixed rule B" } else { "no rule" }, leaps.0);
+        let why = |e: &dyn std::fmt::Display| format!("{} because f({}) = {} {} T", e, u, leaps.f(u), if leaps.f(u) >= t as i128 { ">=" } else { "<" });
+        match (&exp, &got) {
+            (Fwd::Unspec, _) => l.unspecified += 1,
+            (Fwd::Type(e), Ok(g)) => {
+                if !e.same_as(g) {
+                    l.violation("leap seconds: forward lookup switches at the wrong UTC instant (top of the i64 range)", what(), why(e), format!("{}", TypeSpec::from_tz(g)));
+                }
+            }
+            (Fwd::Type(e), Err(err)) => l.violation("leap seconds: forward lookup fails (top of the i64 range)", what(), why(e), format!("Err({:?})", err)),
+            (Fwd::NoType, Err(crate::facade::E::NoAvailableLocalTimeType)) => {}
+            (Fwd::NoType, Ok(g)) => l.violation("leap seconds: forward lookup switches at the wrong UTC instant (top of the i64 range)", what(), why(&"no type (at or after the last transition of a zone without rule)"), format!("{}", TypeSpec::from_tz(g))),
+            (Fwd::NoType, Err(err)) => l.violation("leap seconds: forward lookup fails (top of the i64 range)", what(), why(&"Err(NoAvailableLocalTimeType)"), format!("Err({:?})", err)),
+        }
+    }
+    calls
+}
+
 pub fn check_table(l: &mut Local, leaps: &LeapTable, extra_ts: &[i64]) -> u64 {
     let mut ts: Vec<i64> = vec![];
     for &(li, _) in &leaps.0 {
@@ -271,6 +321,8 @@ pub fn run(ctx: &Ctx) -> Report {
         "minimal_spacing",
         "real_27_record_table",
         "leap_record_within_the_offsets_of_the_transition",
+        "last_record_at_the_top_of_i64",
+        "last_record_beyond_the_last_utc_instant",
     ];
     if let Err(e) = crate::mon::c03::self_tests() {
         rep.inconclusive.push(format!("model self-test failed: {}", e));
@@ -303,6 +355,46 @@ pub fn run(ctx: &Ctx) -> Report {
         l.distinct_hash(h.get());
         if i % 1500 == 1 {
             l.sample(|| Json::obj().set("table", format!("{:?}", t.0)));
+        }
+    });
+    // wl 3: the top of the i64 range
+    run_cases(ctx, &mut rep, 3, ctx.n(3000, 60_000), |l, rng, i| {
+        let mut v: Vec<(i64, i32)> = vec![];
+        let mut c: i32 = if rng.chance(1, 2) { 1 } else { -1 };
+        let mut li: i64 = rng.range(0, 1_000_000);
+        for _ in 0..rng.below(5) {
+            v.push((li, c));
+            li += rng.range(2_419_199, 90_000_000);
+            c += if rng.chance(1, 2) { 1 } else { -1 };
+        }
+        if v.is_empty() {
+            c = if rng.chance(1, 2) { 1 } else { -1 };
+        }
+        let prev = v.last().map(|r| r.1).unwrap_or(0);
+        let top = i64::MAX - rng.below(6) as i64;
+        v.push((top, c));
+        let t = LeapTable(v);
+        l.class("last_record_at_the_top_of_i64");
+        // the record starts to apply at UTC top - prev: beyond i64::MAX when prev is negative enough
+        if top as i128 - prev as i128 > i64::MAX as i128 {
+            l.class("last_record_beyond_the_last_utc_instant");
+        }
+        if t.0.windows(2).any(|w| w[1].1 < w[0].1) || t.0[0].1 < 0 {
+            l.class("table_with_negative_leap");
+        }
+        let mut n = 0;
+        for d in 0..8i64 {
+            n += check_edge(l, &t, i64::MAX - d, rng.chance(1, 2));
+        }
+        n += check_edge(l, &t, rng.range(2000, 1 << 40), true);
+        l.op_n("probe-zone lookups at the top of the i64 range", n);
+        let mut h = Fnv::new();
+        for &(a, b) in &t.0 {
+            h = h.i(a).i(b as i64);
+        }
+        l.distinct_hash(h.get());
+        if i % 1000 == 1 {
+            l.sample(|| Json::obj().set("table", format!("{:?}", t.0)).set("T_values", "i64::MAX - 0..8"));
         }
     });
     rep
